@@ -279,31 +279,49 @@ def session_replay(c, what, msg, out, nsame):
                 how='python3 tools/check.py C04 --replay <this file>')
 
 
-def shrink_session(ctx, c, sig, what, msg, out):
-    """one round of shrinking: every operation on its own (plus the close), smallest first; keeps the original if none fails alike"""
-    cands = []
-    for i, op in enumerate(c['ops']):
-        if op == 'X':
-            continue
-        for tail in ([], ['X']):
-            cands.append(dict(c, id='%s.s%d%d' % (c['id'], i, len(tail)), ops=[op] + tail))
-    cands.sort(key=lambda k: sum(int(x) for x in ' '.join(k['ops']).replace(':', ' ').replace(',', ' ').split() if x.isdigit()))
+def shrink_sessions(ctx, chosen):
+    """one round of shrinking for [(sig, c, what, msg, out)]: every operation of the case on its own (with and without
+    the close), smallest first, all candidates in ONE run of the driver; an entry is kept as it is when no candidate
+    fails with the same signature"""
+    cands = {}
+    lines = []
+    for n, (sig, c, what, msg, out) in enumerate(chosen):
+        ks = []
+        for i, op in enumerate(c['ops']):
+            if op == 'X':
+                continue
+            for tail in ([], ['X']):
+                ks.append(dict(c, id='%s.s%d.%d%d' % (c['id'], n, i, len(tail)), ops=[op] + tail))
+        ks.sort(key=lambda k: sum(int(x) for x in ' '.join(k['ops']).replace(':', ' ').replace(',', ' ').split() if x.isdigit()))
+        cands[n] = ks
+        lines += [c04_sess.go_line(k) for k in ks]
     try:
-        rc, log, go = run_go(ctx, [c04_sess.go_line(k) for k in cands], 'shrink')
+        rc, log, go = run_go(ctx, lines, 'shrink')
     except Exception:
-        return c, what, msg, out
-    for k in cands:
-        o = go.get(k['id'])
-        if o is None:
-            continue
-        for s2, w2, m2 in c04_sess.oracle(k, c04_sess.parse_go(o), py_header):
-            if s2 == sig:
-                return k, w2, m2, o
-    return c, what, msg, out
+        return chosen
+    res = []
+    for n, (sig, c, what, msg, out) in enumerate(chosen):
+        best = (sig, c, what, msg, out)
+        for k in cands[n]:
+            o = go.get(k['id'])
+            hit = [(w2, m2) for s2, w2, m2 in c04_sess.oracle(k, c04_sess.parse_go(o), py_header) if s2 == sig] if o else []
+            if hit:
+                best = (sig, k, hit[0][0], hit[0][1], o)
+                break
+        res.append(best)
+    return res
 
 
 def correspondence(ctx, verdict, pr):
+    import time
     res = dict(broken=[])
+    tphase = {}
+    t0 = time.time()
+
+    def lap(name):
+        nonlocal t0
+        tphase[name] = round(time.time() - t0, 1)
+        t0 = time.time()
     G, M, P = gen_cases(ctx)
     S = c04_sess.gen_cases(random.Random(ctx.rng.getrandbits(64)), ctx.quick())
     cdir = vlib.V + '/corpus/C04'
@@ -322,6 +340,7 @@ def correspondence(ctx, verdict, pr):
     encbuf = ['%s.mb ENCBUF %d %s %x %x %x %s 0 %s %d' % (c['id'], c['m'], hx(c['key']), c['sid'], c['seq'], c['closing'], hx(c['payload']),
                                                         hx(bytes(TAG[c['m']])), c['buflen']) for c in bufcases]
     mrc1, merr1, mo1 = run_model(ctx, [m_line(c) for c in M] + [i + ' ' + l for i, l in P] + encbuf, 'phase1')
+    lap('model_phase1')
     if mrc1 != 0:
         res['broken'].append(('extracted model c04 failed (phase 1)', merr1[-2000:]))
     # 2. Go: encodes G, decodes the model's messages, primitives, exhaustive Go-only sweep
@@ -332,6 +351,7 @@ def correspondence(ctx, verdict, pr):
             golines.append('%s.d DEC %d %s %s' % (c['id'], c['m'], hx(c['key']), msg))
     golines += [i + ' ' + l for i, l in P] + [l for _, l in sweeps] + [c04_sess.go_line(c) for c in S]
     rc, log, go = run_go(ctx, golines, 'phase2')
+    lap('go_driver')
     if rc != 0:
         res['broken'].append(('Go driver TestVerifC04 failed to build or run', log[-3000:]))
     # 3. the model decodes and re-encodes what Go produced
@@ -375,7 +395,9 @@ def correspondence(ctx, verdict, pr):
                     m2.append('%s REENC %d %s %s' % (rid, c['m'], hx(c['key']), msg.hex()))
                 if len(msg) >= HDR + 8:
                     off += len(msg) - HDR - py_header(c['key'], msg)[3]
+    lap('prepare_phase3')
     mrc2, merr2, mo2 = run_model(ctx, m2, 'phase3', nproc=4 if ctx.quick() else 10)
+    lap('model_phase3')
     if mrc2 != 0:
         res['broken'].append(('extracted model c04 failed (phase 3)', merr2[-2000:]))
 
@@ -485,13 +507,20 @@ def correspondence(ctx, verdict, pr):
                 sfails.setdefault('session-interop-decode', []).append(
                     (c, 'the independent decoder reads sid=%s closing=%s and a payload that is not the next %d bytes written (message %d of %s)'
                      % (fld[1], fld[3], len(pl), k, name), msg))
-    for sig in sorted(sfails):
+    # report order: the size clause first; within a signature the limit the commands configure, then the
+    # documented small ones, then the rest; smallest message first
+    prio = ['session-size-limit', 'session-frame-maximum', 'session-write-refused', 'session-peer-roundtrip']
+    kprio = {'session/commands': 0, 'session/small': 1, 'session/default': 2, 'session/default-explicit': 2}
+    chosen = []
+    for sig in sorted(sfails, key=lambda x: (prio.index(x) if x in prio else len(prio), x)):
         lst = sfails[sig]
-        c, what, msg = min(lst, key=lambda t: (len(t[2]) if t[2] else 0, sum(len(x) for x in t[0]['ops'])))
-        c2, what2, msg2, out2 = shrink_session(ctx, c, sig, what, msg, sparsed[c['id']]['raw'])
+        c, what, msg = min(lst, key=lambda t: (kprio.get(t[0]['kind'], 3), len(t[2]) if t[2] else 0, sum(len(x) for x in t[0]['ops'])))
         nfail[0] += 1
         if nfail[0] <= 4:
-            verdict.oracle_failure(sig, 'C04 oracle: ' + what2, session_replay(c2, what2, msg2, out2, len(lst)))
+            chosen.append((sig, c, what, msg, sparsed[c['id']]['raw'] if c['id'] in sparsed else ''))
+    if chosen:
+        for sig, c2, what2, msg2, out2 in shrink_sessions(ctx, chosen):
+            verdict.oracle_failure(sig, 'C04 oracle: ' + what2, session_replay(c2, what2, msg2, out2, len(sfails[sig])))
     if smism and rc == 0 and mrc2 == 0:
         sz, what, c = min(smism, key=lambda t: t[0])
         res['broken'].append(('model SessionLimit.v vs MakeSession / Stream.Write / ReadFrom / closing notices: %d differences' % len(smism),
@@ -523,9 +552,11 @@ def correspondence(ctx, verdict, pr):
         sz, what, c = min(mism, key=lambda t: t[0])
         res['broken'].append(('model Codec.v vs obfs.go: %d cases differ' % len(mism),
                               'smallest differing case: %s\n%s' % (json.dumps(short(c))[:1500], what)))
+    lap('evaluation')
     ctx.c04 = dict(G=G, M=M, S=S)
     kinds += skinds
     verdict.cov.update(
+        phase_seconds=tphase,
         sessions=dict(built=len(sparsed), limits=sorted(set(c['limit'] for c in S)), messages_on_the_wire=smsgs,
                       messages_through_the_independent_decoder=len(sre), model_differences=len(smism),
                       oracle_failures={k: len(v) for k, v in sfails.items()}),
